@@ -178,6 +178,7 @@ pub struct Engine {
     pub handles: Vec<Entity>,
     pub shadow: Vec<Shadow>,
     pub ledger: Ledger,
+    pub prepared: HashMap<u64, Box<dyn std::any::Any>>,
 }
 
 struct SpawnV<'a>(&'a mut World, &'a [u64]);
@@ -275,6 +276,7 @@ impl Engine {
             handles: Vec::new(),
             shadow: vec![Shadow::default(), Shadow::default()],
             ledger: Ledger::default(),
+            prepared: HashMap::new(),
         }
     }
 
@@ -403,6 +405,30 @@ impl Engine {
             let hs: Vec<Entity> = (0..w).map(|_| self.href(r)).collect();
             self.probe(&hs, &mut obs, out);
             return obs;
+        }
+        if opc == 30 {
+            let (qidx, path, arg) = (r.next(), r.next(), r.next());
+            let n = r.next() as usize;
+            let ast = r.take(n);
+            if !self.live(w) {
+                return vec![8];
+            }
+            let hs: Vec<Entity> = if self.handles.len() <= 16 {
+                self.handles.clone()
+            } else {
+                let mut v = self.handles[..4].to_vec();
+                v.extend_from_slice(&self.handles[self.handles.len() - 12..]);
+                v
+            };
+            let world = self.worlds[w].as_mut().unwrap();
+            let res = catch_unwind(AssertUnwindSafe(|| crate::query_engine::run_query_op(world, qidx, path, arg, &ast, &hs, &mut self.prepared, out)));
+            return match res {
+                Ok(o) => o,
+                Err(e) => {
+                    out.flag(format!("C08: query path {path} panicked: {}", panic_class(&e).1));
+                    vec![97]
+                }
+            };
         }
         if opc == 21 {
             if w >= 2 || self.worlds[w].is_none() {
